@@ -99,31 +99,42 @@ def r1(ctx):
 def r2(ctx):
     I = _interp(ctx)
     for name in ("close", "send_close"):
+      for kind in ("bytes", "str"):   # "reason: str or bytes" (send_close's docstring); text goes out as its UTF-8 bytes
         q = f"{W}.{name}"
 
-        def body(run, name=name):
+        def body(run, name=name, kind=kind):
             ws = _ws(I, run, True)
-            return I.call(run, I.getattr(run, ws, name, None), [isym(run, "status", 0, 65535), Sym("reason", "bytes")], {}, None)
+            return I.call(run, I.getattr(run, ws, name, None), [isym(run, "status", 0, 65535), Sym("reason", kind)], {}, None)
 
         outs = ctx.count_paths(I.explore(body))
         bad = None
         n = 0
+        silent = None
         for o in outs:
-            for e in o.effects:
-                if e.name != "send":
-                    continue
+            sends = [e for e in o.effects if e.name == "send"]
+            d = dim_of(o.run, Sym("status", "int"), (0, 65535))
+            if not sends and not (o.kind == "raise" and o.exc_class == "builtins.ValueError"):
+                silent = silent or o
+            for e in sends:
                 n += 1
                 pl = e.args[0]
                 op = e.args[1] if len(e.args) > 1 else e.kwargs.get("opcode")
-                ok = op == C(8) and isinstance(pl, App) and pl.op == "concat" and len(pl.args) == 2 \
-                    and isinstance(pl.args[0], App) and pl.args[0].op == "be" and pl.args[0].args[1] == C(2) \
-                    and pl.args[0].args[0] == Sym("status", "int") and pl.args[1] == Sym("reason", "bytes")
+                want_reason = Sym("reason", "bytes") if kind == "bytes" else App("m:encode", (Sym("reason", "str"), C("utf-8")), "bytes")
+                r = pl.args[1] if isinstance(pl, App) and pl.op == "concat" and len(pl.args) == 2 else None
+                if isinstance(r, App) and r.op == "m:encode" and len(r.args) == 1:
+                    r = App("m:encode", (r.args[0], C("utf-8")), "bytes")  # str.encode() defaults to UTF-8
+                ok = op == C(8) and r is not None and isinstance(pl.args[0], App) and pl.args[0].op == "be" and pl.args[0].args[1] == C(2) \
+                    and pl.args[0].args[0] == Sym("status", "int") and r.key() == want_reason.key()
                 if not ok:
                     bad = bad or (e, o)
-        if n == 0:
-            raise AnalysisError(f"{q} never sends")
-        ctx.ob(f"{q}:close-payload", bad is None, "big-endian 16-bit status followed by the reason, opcode CLOSE" if bad is None else
-               f"sends {bad[0]!r}", bad[0].loc if bad else ctx.index.loc(ctx.index.func(q).node))
+        ctx.ob(f"{q}:close-payload:reason-{kind}", bad is None and silent is None and n > 0,
+               "big-endian 16-bit status followed by the reason" + (" as UTF-8" if kind == "str" else "") + ", opcode CLOSE" if bad is None and silent is None and n > 0 else
+               (f"sends {bad[0]!r}" if bad else
+                f"{name}(status, <{kind} reason>) writes no close frame: it ends as {silent.kind} {silent.exc_class or ''}" +
+                (" -- the TypeError of bytes + str is swallowed by close()'s own handler after the object was already marked unconnected" if name == "close" and silent.kind == "return" else
+                 " -- bytes + str; the object is already marked unconnected, so the one allowed close frame is used up without being sent")),
+               (bad[0].loc if bad else (silent.raise_loc if silent is not None else "")) or ctx.index.loc(ctx.index.func(q).node),
+               {"path": path_text(bad[1] if bad else silent)} if (bad or silent) else None)
 
 
 @rule("R-C08-3", min_instances=4, title="at most one close frame per connection: a close frame is written only while still connected, and marks the object unconnected")
